@@ -164,7 +164,7 @@ def _hmmer_hit(h):
 
 
 def check_remove_overlapping(hits, limit=10):
-    cutoffs = {"PFA": 1.0, "PFB": 1.0, "PFregulatorR": 1.0}
+    cutoffs = {"PFA": 1.0, "PFB": 1.0, "PFregulatorR": 1.0, "PFX": 1.0}
     outs = {}
     for perm in itertools.permutations(hits):
         try:
@@ -190,13 +190,17 @@ def check_remove_overlapping(hits, limit=10):
                 fails.append(("overlap-kept-hits-overlap", f"{kept[i]} {kept[j]}"))
     if any(k not in hits for k in kept):
         fails.append(("overlap-alien-output", str(kept)))
+    if len(kept) != len(set(kept)) and len(set(hits)) == len(hits):
+        fails.append(("overlap-duplicate-output", str(kept)))
 
     def rank(h):   # better first: higher score, longer, earlier, identifier
         return (-h[3], -(h[2] - h[1]), h[1], h[0])
     for h in set(hits):
         if h in kept:
             continue
-        if not any(overlap(h, k) >= limit and rank(k) < rank(h) for k in kept):
+        # (the statement excuses a dropped hit by any better-ranked kept hit that overlaps it; hits shorter than the limit can only
+        # ever overlap by less than the limit)
+        if not any(overlap(h, k) >= min(limit, h[2] - h[1], k[2] - k[1]) and rank(k) < rank(h) for k in kept):
             fails.append(("overlap-dropped-without-better-overlapping-hit", f"{h} kept={kept}"))
     return fails, len(kept) < len(set(hits))
 
@@ -219,7 +223,9 @@ def check_filters(hits, bound=2):
             by_id = {"gene": list(hsps)}
             results, by_id = cluster_prediction.filter_results(results, by_id, [{"A", "B"}])
             results, by_id = cluster_prediction.filter_result_multiple(results, by_id)
-            return tuple(sorted((h.query_id, h.hit_start, h.hit_end, int(h.bitscore)) for h in by_id["gene"]))
+            # both outputs as they come, in their order: the per-gene list and the flat list
+            return (tuple((h.query_id, h.hit_start, h.hit_end, int(h.bitscore)) for h in by_id["gene"]),
+                    tuple((h.query_id, h.hit_start, h.hit_end, int(h.bitscore)) for h in results))
         try:
             for schedule, _, outcome in explore(run, setorder.SCHED, bound=bound):
                 outs.setdefault(outcome, (perm, schedule))
@@ -230,26 +236,31 @@ def check_filters(hits, bound=2):
     fails = []
     if len(outs) > 1:
         fails.append(("filter-order-dependent", str(list(outs.items())[:2])))
-    kept = list(next(iter(outs)))
+    kept = list(next(iter(outs))[0])
+    if sorted(next(iter(outs))[1]) != sorted(kept):
+        fails.append(("filter-lists-disagree", str(next(iter(outs)))))
     # reference: the single best-scoring hit of each (transitive) group of hits overlapping by > 20 survives - only when the gene
     # has hits of at least two equivalent profiles - and then the best-scoring hit of each profile; ties may go either way
     uniq = sorted(set(hits))
     valid = set()
-    if len({h[0] for h in uniq} & {"A", "B"}) >= 2:
-        parent = {h: h for h in uniq}
+    group = {"A", "B"}
+    if len({h[0] for h in uniq} & group) >= 2:
+        competing = [h for h in uniq if h[0] in group]
+        bystanders = [h for h in uniq if h[0] not in group]
+        parent = {h: h for h in competing}
 
         def find(x):
             while parent[x] != x:
                 x = parent[x]
             return x
-        for a, b in itertools.combinations(uniq, 2):
+        for a, b in itertools.combinations(competing, 2):
             if overlap(a, b) > 20:
                 parent[find(a)] = find(b)
         comps = {}
-        for h in uniq:
+        for h in competing:
             comps.setdefault(find(h), []).append(h)
         options = [[h for h in comp if h[3] == max(x[3] for x in comp)] for comp in comps.values()]
-        survivors_sets = [set(choice) for choice in itertools.product(*options)]
+        survivors_sets = [set(choice) | set(bystanders) for choice in itertools.product(*options)]
     else:
         survivors_sets = [set(uniq)]
     for survivors in survivors_sets:
@@ -348,6 +359,12 @@ def run_shard(shard):
     else:
         kind, chunk = shard
         items = [h for h in menu("quick", 3) if h[0] != "regulatorR"]
+        if kind == "overlap":
+            # hits shorter than the overlap limit (also as the first hit of a protein, also sharing a start with a long hit)
+            items = items + [("A", 10, 15, 1), ("B", 60, 65, 2), ("A", 0, 5, 2), ("B", 0, 8, 1)]
+        else:
+            # a profile outside the equivalence group {A, B}: it takes no part in their competition
+            items = items + [("X", 10, 50, 1), ("X", 25, 60, 3), ("X", 0, 60, 2)]
         index = 0
         for k in (1, 2, 3):
             for combo in itertools.combinations(items, k):
